@@ -331,6 +331,31 @@ func (ndb *nodeDB) SetFastStorageVersionToBatch(latestVersion int64) error {
 	return nil
 }
 
+// dropFastStorageVersionFromToBatch drops the label of the fast index when it
+// names the given version or a later one. It is used by commits that do not
+// maintain the index: a commit that was interrupted after its label had been
+// flushed leaves a label naming a version that does not exist yet, and a
+// commit of that version number without index maintenance would otherwise turn
+// the stale index into one that seems to describe the latest version.
+func (ndb *nodeDB) dropFastStorageVersionFromToBatch(version int64) error {
+	ndb.mtx.Lock()
+	defer ndb.mtx.Unlock()
+
+	versions := strings.Split(ndb.storageVersion, fastStorageVersionDelimiter)
+	if len(versions) != 2 {
+		return nil
+	}
+	labelled, err := strconv.ParseInt(versions[1], 10, 64)
+	if err == nil && labelled < version {
+		return nil
+	}
+	if err := ndb.batch.Delete(metadataKeyFormat.Key([]byte(storageVersionKey))); err != nil {
+		return err
+	}
+	ndb.storageVersion = defaultStorageVersionValue
+	return nil
+}
+
 func (ndb *nodeDB) getStorageVersion() string {
 	ndb.mtx.RLock()
 	defer ndb.mtx.RUnlock()
